@@ -103,10 +103,11 @@ fn rel_case(id: &str, base: &str, target: &str) {
     outln!("{}\trel\t{}\t{}\t{}", id, hex(base.as_bytes()), hex(target.as_bytes()), out);
 }
 fn lines_case(id: &str, text: &str, reqs: &[i64]) {
-    let sv = sourcemap::SourceView::new(text.into());
+    let mut sv = sourcemap::SourceView::new(text.into());
     let mut outs = vec![];
     for &q in reqs {
-        // -1 = line_count(), -2 = lines() collected, otherwise get_line(q); q may be u32::MAX
+        // -1 = line_count(), -2 = lines() collected, -3 = continue on a clone of the view (answers "cloned"), otherwise get_line(q); q may be u32::MAX
+        if q == -3 { match catch_unwind(AssertUnwindSafe(|| sv.clone())) { Ok(c) => { sv = c; outs.push("cloned".to_string()); } Err(_) => outs.push("panic".into()) } continue; }
         let o = catch_unwind(AssertUnwindSafe(|| if q == -1 { sv.line_count().to_string() } else if q == -2 { format!("[{}]", sv.lines().map(|s| hex(s.as_bytes())).collect::<Vec<_>>().join("/")) } else { sv.get_line(q as u32).map(|s| hex(s.as_bytes())).unwrap_or("-".into()) })).unwrap_or("panic".into());
         outs.push(o);
     }
@@ -232,7 +233,7 @@ fn run_slicehist(r: &mut Rng, n: u64) {
 }
 fn run_lines(r: &mut Rng, n: u64) {
     let al = ['a', '\u{e9}', '\u{1F44C}', '\n', '\r', 'b'];
-    for i in 0..n { let len = r.below(10); let text: String = (0..len).map(|_| al[r.below(6) as usize]).collect(); let k = 1 + r.below(5); let reqs: Vec<i64> = (0..k).map(|_| match r.below(12) { 0 => -2, 1 => u32::MAX as i64, 2 => 1000, _ => r.below(8) as i64 - 1 }).collect(); lines_case(&format!("r{}", i), &text, &reqs); }
+    for i in 0..n { let len = r.below(10); let text: String = (0..len).map(|_| al[r.below(6) as usize]).collect(); let k = 1 + r.below(5); let reqs: Vec<i64> = (0..k).map(|_| match r.below(13) { 0 => -2, 1 => u32::MAX as i64, 2 => 1000, 12 => -3, _ => r.below(8) as i64 - 1 }).collect(); lines_case(&format!("r{}", i), &text, &reqs); }
 }
 fn run_adjust(r: &mut Rng, n: u64) {
     let t = |dl, dc, sl, sc| Tok { dl, dc, sl, sc, src: 0, name: !0, range: false };
@@ -262,6 +263,19 @@ fn map_in(sm: &sourcemap::SourceMap) -> String {
     let contents = (0..nsrc).map(|i| opt_hex(sm.get_source_contents(i))).collect::<Vec<_>>().join(",");
     format!("{}|{}|{}|{}|{}|{}|{}", opt_hex(sm.get_file()), opt_hex(sm.get_source_root()), strs("sources"), strs("names"), contents,
         sm.ignore_list().map(|x| x.to_string()).collect::<Vec<_>>().join(","), toks_str(&sm.tokens().map(|t| raw_of(&t)).collect::<Vec<_>>()))
+}
+/// the token-level accessors tell the same story as the map-level ones: a token's source / name / contents are the map's entries at its ids
+fn accessors_agree(sm: &sourcemap::SourceMap) -> Option<String> {
+    for (k, t) in sm.tokens().enumerate() {
+        let (sid, nid) = (t.get_src_id(), t.get_name_id());
+        let want_src = if sid == !0 { None } else { sm.get_source(sid) }; let want_name = if nid == !0 { None } else { sm.get_name(nid) };
+        if t.get_source() != want_src { return Some(format!("token {}: get_source()={:?} but the map's source {} is {:?}", k, t.get_source(), sid, want_src)); }
+        if t.get_name() != want_name { return Some(format!("token {}: get_name()={:?} but the map's name {} is {:?}", k, t.get_name(), nid, want_name)); }
+        if t.has_source() != (sid != !0) || t.has_name() != want_name.is_some() { return Some(format!("token {}: has_source/has_name", k)); }
+        if t.to_tuple() != (want_src.unwrap_or(""), t.get_src_line(), t.get_src_col(), want_name) { return Some(format!("token {}: to_tuple", k)); }
+        if sm.get_token(k).map(|x| x.get_raw_token()) != Some(t.get_raw_token()) { return Some(format!("token {}: get_token(k) is not the k-th iterated token", k)); }
+    }
+    None
 }
 /// observation of a map: prefixed sources, names, contents, ignore list, tokens
 fn map_obs(sm: &sourcemap::SourceMap) -> String {
@@ -302,7 +316,14 @@ fn run_setters(r: &mut Rng, n: u64) {
     // boundary strings of the literals tested by the code ("/", "http:", "https:") are in the pool on purpose
     let pool = ["a.js", "", "/abs.js", "http://h/x.js", "https://h/y.js", "httpx", "b/c.js", "http:", "https:", "https:z.js", "http:/w.js", "htt", "/"]; let roots = ["-", "", "r", "r/", "r//", "webpack:///", "/"];
     for i in 0..n {
-        let mut sm = gen_map(r, false); let input = map_in(&sm); let nsrc = sm.get_source_count();
+        let mut sm = gen_map(r, false);
+        // the contents table of a map is not always as long as its sources: a document with fewer `sourcesContent` entries, or a builder whose
+        // contents were set before more sources were added, leaves it shorter (what the map reports is the same: nothing for the missing ones)
+        if r.below(4) == 0 && sm.get_source_count() >= 2 { let keep = 1 + r.below(sm.get_source_count() as u64 - 1) as usize;
+            let mut o = vec![]; sm.to_writer(&mut o).unwrap(); let mut v: serde_json::Value = serde_json::from_slice(&o).unwrap();
+            if let Some(a) = v.get_mut("sourcesContent").and_then(|x| x.as_array_mut()) { a.truncate(keep); }
+            if let Ok(m) = sourcemap::SourceMap::from_slice(&serde_json::to_vec(&v).unwrap()) { sm = m; } }
+        let input = map_in(&sm); let nsrc = sm.get_source_count();
         let mut ops = vec![]; let mut panicked = false;
         for _ in 0..r.below(8) {
             match r.below(3) {
@@ -402,12 +423,17 @@ fn own_b64(data: &[u8]) -> String {
 }
 fn run_hdr(r: &mut Rng, n: u64) {
     let bodies: Vec<&[u8]> = vec![br#"{"version":3,"sources":["a"],"names":[],"mappings":"AAAA"}"#, br#"{"version":3,"sections":[{"offset":{"line":0,"column":0},"map":{"version":3,"sources":["a"],"names":[],"mappings":"AAAA"}}]}"#,
-        br#"{"version":3,"sources":["a"],"names":[],"mappings":"AAAA","x_facebook_sources":[null]}"#, br#"{"file":"x"}"#, br#"[1,2]"#];
+        br#"{"version":3,"sources":["a"],"names":[],"mappings":"AAAA","x_facebook_sources":[null]}"#, br#"{"file":"x"}"#, br#"[1,2]"#,
+        // nothing after the header; a complete document followed by more (white space is fine, anything else is an error on every path)
+        b"", br#"{"version":3,"sources":["a"],"names":[],"mappings":"AAAA"}x"#, b"{\"version\":3,\"sources\":[\"a\"],\"names\":[],\"mappings\":\"AAAA\"} \n }", b"{\"version\":3,\"sources\":[\"a\"],\"names\":[],\"mappings\":\"AAAA\"}\n\n  ",
+        br#"{"version":3,"sources":["a"],"names":[],"mappings":"AAAA"}{"version":3}"#];
     let headers: Vec<&[u8]> = vec![b"", b")]}'\n", b")]}'\r\n", b")]}'\r", b")]}'", b")\n", b"]\r\r\n", b"}garbage)]}\n", b"'\n\n", b")]}\rx\n", b"x)]}\n", b")\r\n\r\n", b")]}'\r\r\n", b"'\r", b"]\n\r\n", b"}{\n",
         b")]}'\r)]}'\n", b")\r]\n", b"]\r}\r\n", b"'\r'\r'\n", b")\r\r", b"}\r)",
         b")]}'\n)]}'\n", b")\n]\r\n", b"'\r\n'\n'\n", b")]}'\n \n", b"\n", b" \n", b"\n)]}'\n",
         // garbage that is not UTF-8 (Latin-1 text, a lone continuation byte, a truncated sequence): the header is skipped byte-wise on every path
-        b")]}'\xff\xfe\n", b"]caf\xe9\r\n", b"}\x80\n", b"'\xe2\x82\n", b")\xf0\x9f\r\n", b"]\xc3\r"];
+        b")]}'\xff\xfe\n", b"]caf\xe9\r\n", b"}\x80\n", b"'\xe2\x82\n", b")\xf0\x9f\r\n", b"]\xc3\r",
+        // a byte order mark in front of the document or of the header (not JSON, not a junk start byte: whatever one path does, the other does)
+        b"\xef\xbb\xbf", b"\xef\xbb\xbf)]}'\n", b"\xef\xbb", b"\xfe\xff"];
     for i in 0..n {
         let body = bodies[if r.below(3) == 0 { r.below(bodies.len() as u64) as usize } else { 0 }];
         let mut doc = headers[r.below(headers.len() as u64) as usize].to_vec();
@@ -415,7 +441,8 @@ fn run_hdr(r: &mut Rng, n: u64) {
         let cut = [0usize, 0, 0, 1, 7][r.below(5) as usize].min(body.len()); doc.extend_from_slice(&body[..body.len() - cut]);
         // reads: mostly short; sometimes a first read that ends exactly after the header line, or one big read
         let hdr_len = doc.iter().position(|&b| b == b'\n').map(|k| k + 1).unwrap_or(1);
-        let sizes: Vec<usize> = match r.below(6) { 0 => vec![hdr_len.max(1), 1 + r.below(7) as usize], 1 => vec![doc.len().max(1)], 2 => vec![1], _ => (0..1 + r.below(3)).map(|_| 1 + r.below(7) as usize).collect() };
+        let after_doc = doc.iter().rposition(|&b| b == b'}').map(|k| k + 1).unwrap_or(1);        // a read that ends exactly after the last closing brace
+        let sizes: Vec<usize> = match r.below(8) { 6 => vec![after_doc.max(1), 1 + r.below(3) as usize], 7 => vec![1 + r.below(2) as usize, 4096], 0 => vec![hdr_len.max(1), 1 + r.below(7) as usize], 1 => vec![doc.len().max(1)], 2 => vec![1], _ => (0..1 + r.below(3)).map(|_| 1 + r.below(7) as usize).collect() };
         let res = |x: sourcemap::Result<sourcemap::DecodedMap>| match x { Ok(dm) => format!("ok:{}", match dm { sourcemap::DecodedMap::Regular(m) => format!("R{}", m.get_token_count()), sourcemap::DecodedMap::Index(m) => format!("I{}", m.get_section_count()), sourcemap::DecodedMap::Hermes(m) => format!("H{}", m.get_token_count()) }), Err(_) => "err".to_string() };
         let out = catch_unwind(AssertUnwindSafe(|| {
             let a = res(sourcemap::decode_slice(&doc));
@@ -522,7 +549,14 @@ fn run_fname_gen(r: &mut Rng, n: u64, any_col: bool) {
                     let same = match &hm { sourcemap::DecodedMap::Hermes(h) => h.get_token_count() == sm.get_token_count(), _ => false };
                     let ixh = sourcemap::SourceMapIndex::new(None, vec![sourcemap::SourceMapSection::new((0, 0), None, Some(hm))]);
                     let d = if same { norm(ixh.get_original_function_name(l, c, &name, &sv)) } else { a.clone() };
-                    vec![a, b, cc, d] })).unwrap_or(vec!["panic".into()]);
+                    let mut v = vec![a.clone(), b, cc, d];
+                    // positions that are not a token's own: to the right of it, on the next line, on a later line -- whenever the closest preceding
+                    // token (C04) is still this one, every position-based entry point answers what this token answers
+                    for (l2, c2) in [(l, c.saturating_add(1)), (l.saturating_add(1), 0), (l.saturating_add(1), c), (l.saturating_add(7), 2)] {
+                        if sm.lookup_token(l2, c2).map(|t| t.get_raw_token()) == Some(sm.get_token(ti).unwrap().get_raw_token()) && sm.lookup_token(l2, c2).map(|t| t.get_dst()) == Some((l, c)) {
+                            v.push(norm(sm.get_original_function_name(l2, c2, &name, &sv)));
+                            v.push(norm(sourcemap::DecodedMap::Regular(sm.clone()).get_original_function_name(l2, c2, Some(&name), Some(&sv)))); } }
+                    v })).unwrap_or(vec!["panic".into()]);
                 if apis.iter().any(|x| x != &out) { out = format!("api-mismatch:{}:{}", out, apis.join("/")); }
             }
             outln!("r{}_{}\t{}\t{}\t{}\t{}\t{}\t{}", i, q, if any_col { "fname_any" } else { "fname" }, hex(text.as_bytes()), toks_str(&sorted), ti, hex(name.as_bytes()), out);
@@ -630,7 +664,7 @@ fn run_decode(r: &mut Rng, n: u64, with_faults: bool) {
                     idem = match catch_unwind(AssertUnwindSafe(|| { let mut o2 = vec![]; sm.to_writer(&mut o2).unwrap(); let sm3 = sourcemap::SourceMap::from_slice(&o2).unwrap(); let mut o3 = vec![]; sm3.to_writer(&mut o3).unwrap();
                         if o2 == o3 { "1".to_string() } else { format!("0:{}:{}", hex(&o2), hex(&o3)) } })) { Ok(x) => x, Err(_) => "panic".into() };
                 }
-                format!("ok {}#{}", map_obs(&sm), sm.get_debug_id().map(|d| d.to_string()).unwrap_or("-".into())) }
+                match accessors_agree(&sm) { Some(why) => format!("entry-points-differ {}", why), None => format!("ok {}#{}", map_obs(&sm), sm.get_debug_id().map(|d| d.to_string()).unwrap_or("-".into())) } }
             Ok(Ok(_)) => "ok other-kind".into(), Ok(Err(e)) => format!("err {}", err_name(&e)), Err(_) => "panic".into() };
         // the reader entry points on the same document, read in small or large chunks, with and without a junk header that arrives in
         // its own reads (or is longer than any buffer): same outcome as the slice entry point
@@ -832,10 +866,11 @@ fn run_crash(r: &mut Rng, n: u64) {
                 m.insert("version".into(), serde_json::json!(3)); m.insert("sources".into(), serde_json::json!(["a.js", null, "b.js"])); m.insert("names".into(), serde_json::json!(["x", 7]));
                 m.insert("mappings".into(), serde_json::json!(["AAAA;AACAA,CAAE", "AAAA,C,EAAEC;;GAEA", "", ";;;A"][r.below(4) as usize]));
                 if r.below(4) == 0 { // running sums driven far out: the same huge delta several times, in one field or in all
-                    let big = [(1i64 << 62) - 1, -((1i64 << 62) - 1), 1i64 << 61, -(1i64 << 32), (1i64 << 32) - 1][r.below(5) as usize]; let which = r.below(4);
+                    let big = [(1i64 << 62) - 1, -((1i64 << 62) - 1), 1i64 << 61, -(1i64 << 32), (1i64 << 32) - 1][r.below(5) as usize]; let which = r.below(6);
                     let mut mp = String::new();
                     for k in 0..(2 + r.below(5)) { if k > 0 { mp.push(if r.below(4) == 0 { ';' } else { ',' }); }
-                        own_vlq(if which == 0 { big } else { 1 }, &mut mp);
+                        // which >= 4: a small first column, then POSITIVE deltas just below 2^32: the running column wraps around to small values again
+                        own_vlq(if which == 0 { big } else if which >= 4 { if k == 0 { 10 } else { (1i64 << 32) - 1 - r.below(8) as i64 } } else { 1 }, &mut mp);
                         if which > 0 { own_vlq(0, &mut mp); own_vlq(if which == 1 || which == 3 { big } else { 0 }, &mut mp); own_vlq(if which == 2 || which == 3 { big } else { 0 }, &mut mp); } }
                     m.insert("mappings".into(), serde_json::json!(mp)); }
                 if r.below(2) == 0 { m.insert("sourcesContent".into(), serde_json::json!([null, "c", "d", "e"])); }
@@ -1014,7 +1049,7 @@ fn edit_history(sm: &mut sourcemap::SourceMap, r: &mut Rng) {
             0 => { let v = roots[r.below(5) as usize]; if r.below(6) == 0 { sm.set_source_root(None::<&str>); } else { sm.set_source_root(Some(v)); } }
             1 if n > 0 => { let v = if r.below(2) == 0 { abs[r.below(4) as usize] } else { rel[r.below(5) as usize] }; sm.set_source(r.below(n as u64) as u32, v); }
             2 if n > 0 => { let c = if r.below(3) == 0 { None } else { Some("edited \u{1f44c}") }; sm.set_source_contents(r.below(n as u64) as u32, c); }
-            _ => { if n > 0 { sm.add_to_ignore_list(r.below(n as u64) as u32); } }
+            _ => { if r.below(3) == 0 { sm.remove_names(); } else if n > 0 { sm.add_to_ignore_list(r.below(n as u64) as u32); } }
         }
     }
 }
